@@ -520,6 +520,88 @@ def rule_r4(facts, rep, rid="C16-R4"):
     rep.floor(rid, "element comparisons inside comparator closures", n, 8)
 
 
+# ------------------------------------------------------------------------------------------ R6 loop-carried dependence in hash-ordered loops
+
+def _field_effects(facts):
+    """Per fn (liwe): fields of Graph read / written directly; closed transitively over the call graph for reads."""
+    G = "liwe::graph::Graph"
+    direct_r, direct_w = {}, {}
+    for f in facts.body_fns():
+        if f.crate != "liwe":
+            continue
+        owner = f.parent if f.kind == "closure" and f.parent else f.def_
+        r = direct_r.setdefault(owner, set())
+        w = direct_w.setdefault(owner, set())
+        for x in fb.walk(f.body):
+            if x.get("k") == "field" and fb.norm(strip_refs(fb.tnorm(x.get("bty") or ""))) == G:
+                r.add(x["name"])
+            if x.get("k") == "mcall" and x["name"] in ("insert", "remove", "extend", "entry", "clear", "retain", "push"):
+                rc = x["recv"]
+                while rc is not None and rc.get("k") in ("addrof", "unary"):
+                    rc = rc["e"]
+                if rc is not None and rc.get("k") == "field" and fb.norm(strip_refs(fb.tnorm(rc.get("bty") or ""))) == G:
+                    w.add(rc["name"])
+    cg = facts.callgraph
+    memo = {}
+
+    def reads(fn_def, depth=0, stack=()):
+        if fn_def in memo:
+            return memo[fn_def]
+        if depth > 8 or fn_def in stack:
+            return set(direct_r.get(fn_def, ()))
+        out = set(direct_r.get(fn_def, ()))
+        for cal in cg.edges.get(fn_def, ()):
+            if cal.startswith(("liwe::", "<liwe::", "<&liwe::")):
+                out |= reads(cal, depth + 1, stack + (fn_def,))
+        memo[fn_def] = out
+        return out
+    return reads, direct_w
+
+
+def rule_r6(facts, rep, rid="C16-R6"):
+    reads, direct_w = _field_effects(facts)
+    n = 0
+    for f in facts.body_fns():
+        if f.crate != "liwe" or f.kind == "closure" or "::tests::" in f.def_ or "::test::" in f.def_:
+            continue
+        li = 0
+        for x in fb.walk(f.body):
+            if not (x.get("k") == "match" and x.get("src") == "ForLoopDesugar"):
+                continue
+            it = x["e"]
+            arg = it["args"][0] if it.get("k") == "call" and it.get("args") else it
+            tys = [arg.get("ty")] + [y.get("ty") for y in fb.walk(arg)] + [y.get("rty") for y in fb.walk(arg) if y.get("k") == "mcall"]
+            if not any(is_hash_ty(t) for t in tys if t):
+                continue
+            # writes in the loop body (directly, incl. closures) and reads through callees
+            written = set()
+            read = set()
+            for y in fb.walk(x):
+                if y.get("k") == "mcall" and y["name"] in ("insert", "remove", "extend", "entry", "push"):
+                    rc = y["recv"]
+                    while rc is not None and rc.get("k") in ("addrof", "unary"):
+                        rc = rc["e"]
+                    if rc is not None and rc.get("k") == "field" and fb.norm(strip_refs(fb.tnorm(rc.get("bty") or ""))).endswith("graph::Graph"):
+                        written.add(rc["name"])
+                        continue
+                if y.get("k") in ("call", "mcall"):
+                    cal = fb.rcallee(y) or fb.callee(y)
+                    if cal and cal.startswith(("liwe::", "<liwe::", "<&liwe::")):
+                        read |= reads(cal)
+            if not written:
+                continue
+            n += 1
+            key = "%s|hash-ordered-loop:%d|no-loop-carried-dependence" % (f.def_, li)
+            li += 1
+            dep = written & read
+            if dep:
+                rep.violation(rid, key, "the loop iterates a hash container (order = hash seed) and each iteration writes Graph.%s, which the calls made in the same loop body also read: what an "
+                              "iteration computes depends on which keys were processed before it, so the result (titles, exported text) varies with the hash seed and the insert history" % sorted(dep), loc(f, x))
+            else:
+                rep.ok(rid, key, "writes %s; the calls in the body read only %s" % (sorted(written), sorted(read)[:6]), loc(f, x))
+    rep.floor(rid, "hash-ordered loops that write graph state", n, 1)
+
+
 def run(facts, rep, tier):
     rep.rule("C16-R1", "Hash-order taint: every iteration over a HashMap/HashSet (and every call of a fn returning such data) must end in an "
              "order-insensitive sink (collect into map/set, len/any/all/contains/min/max, total sort) before it reaches a return value, "
@@ -533,6 +615,9 @@ def run(facts, rep, tier):
     rep.rule("C16-R4", "Comparator sanity: inside every comparator closure (sorted_by / sort_by / max_by ...) each comparison relates the first element to the second; a comparison "
              "whose operands both come from the same element makes that level constant, so ties are broken by input order (load/insert history, hash order).")
     rule_r4(facts, rep)
+    rep.rule("C16-R6", "No loop-carried dependence in hash-ordered loops: a loop over a HashMap/HashSet that writes a field of Graph must not (transitively) read that same field in its body - "
+             "otherwise each iteration sees the effects of the ones the hash order happened to put before it.")
+    rule_r6(facts, rep)
     rep.rule("C16-R5", "= C18-R1: the path enumeration walks the referrers of a note in hash order; its result is a *set* independent of that order only if the visited set is a stack "
              "discipline (insert on entry, remove on exit): a persistent visited set lets the first branch explored consume shared ancestors, so which paths exist depends on the hash seed.")
     from . import c18
